@@ -5,7 +5,7 @@
 typedef struct { int a, b, c; long t1, t2, t3; int oids[X509_MAX_KEY_PURPOSES]; size_t cnt; } xl_in;
 DECL_INPUT(xl_in);
 
-//@job name=x509_key_usage_check props=C07 enforce=x509_key_usage_check
+//@job name=x509_key_usage_check props=C07,C20 enforce=x509_key_usage_check
 void h_x509_key_usage_check(void)
 {
 	INPUT(xl_in, I); ASSUME(I.a >= -1);
